@@ -846,6 +846,15 @@ def _init(run, world, mod, c):
                    "constructor", where(mod, f2), trivial=True)
 
 
+def _truth_q(q):
+    """Truth of a width expression a*q + b over q >= 0 (q >= 1 for b == 0
+    and a > 0 is not needed here: remainders and comparisons are
+    constants)."""
+    if q.a != 0:
+        raise pred.Unrecognised("truth of a width-dependent value %r" % (q,))
+    return q.b != 0
+
+
 def _returns(fn):
     return [n.value for n in ast.walk(fn) if isinstance(n, ast.Return)
             and n.value is not None]
@@ -957,8 +966,53 @@ def _add_contains_views(run, world, mod, c):
                where(mod, f2),
                sample={"rule": "R-FRAME-VIEW", "view": name,
                        "length": unparse(n), "order": order})
-    f2, r = one_return("pack")
-    check_pack("pack", r, f2, False)
+    # pack: one path per case of the width's residue mod 8 (a conditional
+    # expression, an if on the remainder, divmod ...); each residue must
+    # select paths that all encode into ceil(width/8) bytes
+    from .. import paths as _paths
+    pf = normalise(c.methods["pack"][1], world, FR, c, aliases=True)
+    try:
+        pps = [p_ for p_ in _paths.summaries(pf) if p_.kind == "return"]
+    except _paths.Unsupported:
+        pps = None
+    if pps is None or len(pps) <= 1:
+        f2, r = one_return("pack")
+        check_pack("pack", r, f2, False)
+    else:
+        names = ("len(self)", "self._bits")
+        okv, okn, msg = True, True, ""
+        for p_ in pps:
+            tb = _to_bytes_call(p_.expr)
+            if tb is None:
+                raise AnalysisError("Frame.pack: `%s` is not an "
+                                    "int.to_bytes call" % unparse(p_.expr))
+            okv = okv and _data_identity(lw, tb[0]) and tb[2] == "'big'"
+        for r8 in range(8):
+            hit = 0
+            for p_ in pps:
+                try:
+                    holds = all(bool(_truth_q(pred.residue_eval(
+                        t_, names, 8, r8))) == b_ for (t_, b_) in p_.conds)
+                except pred.Unrecognised as e_:
+                    raise AnalysisError("Frame.pack: %s" % e_)
+                if not holds:
+                    continue
+                hit += 1
+                n_ = _to_bytes_call(p_.expr)[1]
+                q = pred.residue_eval(n_, names, 8, r8)
+                if q != pred.QLin(1, 1 if r8 else 0):
+                    okn = False
+                    msg = "length `%s` is %r bytes for width 8q+%d, " \
+                        "expected q%s" % (unparse(n_), q, r8,
+                                          "+1" if r8 else "")
+            if hit == 0:
+                okn = False
+                msg = "no path of pack applies to widths 8q+%d" % r8
+        run.ob("R-FRAME-VIEW", "%s.Frame.pack" % FR, okv and okn,
+               "pack must be the big-endian encoding of the value in "
+               "ceil(width/8) bytes: %s" % msg, where(mod, pf),
+               sample={"rule": "R-FRAME-VIEW", "view": "pack",
+                       "paths": len(pps)})
     f2, r = one_return("pack_len")
     check_pack("pack_len", r, f2, True)
     f2, r = one_return("as_byte_sequence")
